@@ -334,6 +334,24 @@ func decJwe(b []byte, arg int) string {
 	return "ok"
 }
 
+// decJweForged: objects of the harness' own JWE writer; "ok" = some key decrypted it to the writer's payload.
+func decJweForged(b []byte, arg int) string {
+	obj, err := jose.ParseEncrypted(string(b))
+	if err != nil {
+		return "error"
+	}
+	if obj == nil {
+		return stall("ParseEncrypted returned neither an object nor an error")
+	}
+	ret := "error"
+	for _, k := range theKeys().decrypt {
+		if p, err := obj.Decrypt(k); err == nil && bytes.Equal(p, forgePayload) {
+			ret = "ok"
+		}
+	}
+	return ret
+}
+
 func decJwk(b []byte, arg int) string {
 	var k jose.JsonWebKey
 	return okIf(k.UnmarshalJSON(b) == nil)
@@ -459,6 +477,7 @@ func init() {
 	}
 	reg("jws", "jose.jws", decJws)
 	reg("jwe", "jose.jwe", decJwe)
+	reg("jweforge", "jose.jwe.forged", decJweForged)
 	reg("jwk", "jose.jwk", decJwk)
 	reg("ocspresp", "ocsp.response", decOcspResp(nil, false))
 	reg("ocspresp", "ocsp.response.issuer", decOcspResp(func() *x509.Certificate { return theOcsp().issuer }, false))
